@@ -478,6 +478,8 @@ def run(chk) -> None:
     _r05c(chk)
     _r05d(chk)
     _r05e(chk)
+    chk.rule("R05i", "a rule that keeps working memory between evaluations hands it on with every result: in a rule method that dereferences context.memory, every LintResult(...) that is returned passes memory= (a result without it resets the memory to None and the next evaluation fails on it)")
+    _r05i(chk)
     chk.rule("R05f", "no WhitespaceSegment is built from a text that may be empty: the text is a non-empty constant, or known to be truthy where the segment is built (dominating test, conditional expression, short circuit), or the site is reviewed into R05F_REVIEWED -- LintFix refuses an edit that contains a segment with an empty raw (\"Invalid edit found\"), which surfaces as an 'Unexpected exception' violation")
     _r05f(chk)
     chk.rule("R05g", "every assert in rules/ and utils/ is discharged by a fact known where it stands (dominating test, crawler guarantee, functional API, call sites, construction; sa/asserts.py), is a typing-only assertion on a parsed segment's pos_marker, or is reviewed into R05G_TABLE with the reason why its condition cannot be false; no segment class defines __bool__/__len__")
@@ -622,6 +624,42 @@ R05F_REVIEWED: Dict[Tuple[str, str, str], str] = {
 
 def _nonempty_const(e) -> bool:
     return isinstance(e, ast.Constant) and isinstance(e.value, str) and e.value != ""
+
+
+def _r05i(chk) -> None:
+    repo = chk.repo
+    n = 0
+    for m in repo.iter_modules("src/sqlfluff/rules/"):
+        if "memory" not in m.text:
+            continue
+        for q, f in m.functions():
+            deref = False
+            aliases = {"context.memory"}
+            for st in walk_local(f):
+                if isinstance(st, ast.Assign) and len(st.targets) == 1 and isinstance(st.targets[0], ast.Name) and norm(st.value) == "context.memory":
+                    aliases.add(st.targets[0].id)
+            for x in walk_local(f):
+                if isinstance(x, ast.Attribute) and norm(x.value) in aliases and isinstance(getattr(x, "_parent", None), ast.Call):
+                    deref = True
+                if isinstance(x, ast.Subscript) and norm(x.value) in aliases:
+                    deref = True
+            if not deref:
+                continue
+            for c in [c for c in walk_local(f) if isinstance(c, ast.Call) and last_attr(c) == "LintResult"]:
+                # only results that leave the function
+                par = getattr(c, "_parent", None)
+                returned = isinstance(par, ast.Return) or (isinstance(par, (ast.List, ast.Tuple)) and isinstance(getattr(par, "_parent", None), ast.Return))
+                if not returned:
+                    continue
+                n += 1
+                chk.require(
+                    kwarg(c, "memory") is not None, "R05i", c,
+                    f"{q} reads its working memory from context.memory but returns `{short(c, 50)}` without memory=: the crawler then carries None into the next evaluation, where "
+                    "`context.memory.get(..)` raises AttributeError ('Unexpected exception')",
+                    detail=f"{q}: every returned LintResult hands the memory on",
+                )
+    chk.count("R05i.results_of_memory_rules", n)
+    chk.floor("R05i.results_of_memory_rules", 5)
 
 
 def _nonempty_subject(e, pol):
@@ -1570,6 +1608,12 @@ LT08 = "src/sqlfluff/rules/layout/LT08.py"
 LT07 = "src/sqlfluff/rules/layout/LT07.py"
 
 VARIANTS = [
+    Variant(
+        "am06-array-branch-drops-the-memory", "src/sqlfluff/rules/ambiguous/AM06.py",
+        "            return LintResult(memory=context.memory)\n",
+        "            return LintResult()\n",
+        "R05i", "Rule_AM06._eval", "seeded C05-8 (every early return): the next GROUP BY / ORDER BY clause fails on a None memory", count=3,
+    ),
     Variant(
         "st02-null-gate-looks-at-every-raw-segment", "src/sqlfluff/rules/structure/ST02.py",
         "                segment.raw_upper for segment in condition_expression.segments\n",
